@@ -279,9 +279,10 @@ def _configs(tier):
     q32 = [(7, "little", 4), (6, "big", None), (8, "little", 4), (9, "big", 4)]
     qser = [(2, 2), (3, None), (4, 3)]
     if tier != "quick":
-        q8 += [(n, mw) for n in (2, 3, 4, 5, 6) for mw in (None, 3)] + [(3, 2), (4, 3)]
-        q32 += [(n, e, mw) for n in range(5, 13) for e in ("little", "big") for mw in (None, 4)] + [(5, "little", 2)]
-        qser += [(n, mw) for n in (1, 2, 3, 4) for mw in (None, 2, 3)] + [(1, 1)]
+        q8 += [(2, None), (3, 3), (4, None), (6, 3), (3, 2)]
+        q32 += [(5, "little", 4), (5, "big", None), (6, "little", None), (8, "big", 4), (10, "little", 4),
+                (11, "big", 4), (12, "little", None), (12, "big", 4), (5, "little", 2)]
+        qser += [(1, 1), (1, None), (2, None), (3, 3), (4, None)]
     seen = set()
     for n, mw in q8:
         if ("c8", n, mw) in seen:
